@@ -230,9 +230,21 @@ def regionValid (cmd : Cmd) (pkg : Pkg) (fl : Flags) : Region :=
       | none => if sep then .F_star_sep else .F_star_noline
       | some g => if sep && !e.all (fun n => fileOf pkg n == some g) then .F_star_sep else .WF
 
+/-- what `new` sees of a declaration (since /repo 1819261): function bodies are not entered, constants play no role -/
+def stripDecl : Decl → Decl
+  | .func tps _ => .func tps []
+  | .consts _ => .other
+  | d => d
+
+/-- the package as `new` sees it; model and specification of `new` are invariant under it (`run_new_strip`, `spec_new_strip`) -/
+def stripNew (pkg : Pkg) : Pkg := pkg.map (fun f => { f with decls := f.decls.map stripDecl })
+
 def region (cmd : Cmd) (pkg : Pkg) (fl : Flags) : Region :=
   if validPkg pkg then regionValid cmd pkg fl
   else if pkg.all (fun f => endsGo f.name) && namedNotInFile pkg fl then .WF     -- whatever else the package contains
+  else if cmd == .new && validPkgL pkg then
+    -- `new` passes function-local types and constants by: the package without them is valid and decides the region
+    regionValid .new (stripNew pkg) fl
   else if validPkgL pkg then
     -- only function-local types / constants of predeclared types keep the package out of `validPkg`: where the model
     -- (= the code) then misses the specification it is this finding, elsewhere the input stays advisory
